@@ -66,8 +66,38 @@ def seeded_scenarios(ctx, n):
     out = []
     for i in range(n):
         ops = []
-        fam = i % 5
-        if fam == 0:  # tcp listener vs no socket
+        fam = i % 6
+        if fam == 5:  # TCP connections (active opens): the 4-tuple is the most specific binding; a rejected duplicate changes nothing
+            lp = rng.choice([7000, 7001])
+            la = rng.choice(['', '10.0.0.1'])
+            peer, pport = '10.0.0.9', 80
+            ops += [dict(op='tcp', s=0, v=4), dict(op='bind', s=0, addr=la, port=lp), dict(op='connect', s=0, addr=peer, port=pport), dict(op='settle', ms=15)]
+            variant = (i // 6) % 4
+            if variant in (0, 1):
+                # a second socket takes the same local port (the first one's reservation ended with its connect) and tries the
+                # same peer: its registration collides and must fail WITHOUT disturbing the first connection
+                ops += [dict(op='tcp', s=1, v=4), dict(op='bind', s=1, addr=la, port=lp)]
+                ops += [dict(op='connect', s=1, addr=peer, port=pport if variant == 0 else 81), dict(op='settle', ms=15)]
+            if variant == 2:
+                # a listener on the same port next to the connection
+                ops += [dict(op='tcp', s=1, v=4), dict(op='bind', s=1, addr='', port=lp), dict(op='listen', s=1, backlog=2)]
+            if variant == 3:
+                ops += [dict(op='udp', s=1, v=4), dict(op='bind', s=1, addr='', port=lp)]
+            # strangers first (other remote port / address / local address): reset, or SYN-ACK from the listener
+            for j in range(rng.randrange(0, 3)):
+                src, sport, dst = rng.choice([(peer, 81 if variant != 1 else 82, '10.0.0.1'), ('10.0.0.8', pport, '10.0.0.1'), (peer, pport, '10.0.0.2')])
+                ops.append(dict(op='inject', kind='tcp', v=4, src=src, sport=sport, dst=dst, dport=lp, flags=rng.choice(['S', 'A', 'SA']),
+                                seqhi=j + 1, seqlo=5, ackhi=3, acklo=4, n=0, seed=0))
+                ops.append(dict(op='settle', ms=15))
+            # the peer's SYN-ACK for the FIRST connection: it must reach that socket, which completes the handshake
+            ops.append(dict(op='inject', kind='tcp', v=4, src=peer, sport=pport, dst='10.0.0.1', dport=lp, flags='SA', seqhi=9, seqlo=9,
+                            ackofport=lp, n=0, seed=0, win=30000))
+            ops.append(dict(op='settle', ms=15))
+            if variant == 1:
+                ops.append(dict(op='inject', kind='tcp', v=4, src=peer, sport=81, dst='10.0.0.1', dport=lp, flags='A', seqhi=1, seqlo=1, ackhi=1, acklo=1, n=0, seed=0))
+                ops.append(dict(op='settle', ms=15))
+            ops.append(dict(op='close', s=0))
+        elif fam == 0:  # tcp listener vs no socket
             la = rng.choice(['', '10.0.0.1', '10.0.0.2'])
             ops += [dict(op='tcp', s=0, v=4), dict(op='bind', s=0, addr=la, port=80), dict(op='listen', s=0, backlog=5)]
             for j in range(rng.randrange(2, 6)):
@@ -194,6 +224,17 @@ def run(ctx):
         ev = segs[si][ln] if ln < len(segs[si]) else {}
         ctx.violation('socket-layer behaviour rejected by the C09 P-spec at event %d: %s' % (ln, {k: v for k, v in ev.items() if k not in ('pay', 'raw')}),
                       dict(kind='scenario', scenario=dict(nics=allsc[si]['nics'], ops=strip(allsc[si]['ops'])), events=segs[si][:ln + 1]))
+    # vacuity guard of the TCP-connection family: SYN-ACKs that acknowledge the stack's own SYN were injected and answered
+    nsa = nack = 0
+    for sg in segs:
+        for i, e in enumerate(sg):
+            if e.get('ev') == 'op' and e.get('op') == 'inject' and 'ackofport' in e:
+                nsa += 1
+                nxt = [x for x in sg[i + 1:i + 4] if x.get('ev') == 'emit' and x.get('kind') == 'tcp']
+                nack += 1 if nxt and nxt[0].get('flags') == 'A' else 0
+    ctx.extra['tcp_connection_synacks'] = dict(injected=nsa, handshake_completed=nack)
+    if not rej and nack == 0:
+        raise vlib.Inconclusive('vacuity: no injected SYN-ACK completed an active open (TCP connection family dead)')
     # binding self-test: move a received datagram to another socket / drop the RST
     base = next((s for s in segs if any(e.get('op') == 'readall' and e.get('got') for e in s)), None)
     if base is None:
